@@ -104,21 +104,35 @@ Proof.
 Qed.
 Print Assumptions C12_cluster_assignment_deterministic.
 
-(* 4. Attr.native_types = list(set(..)) followed by converter.sort_types.
-      Guard: at most one type outside the priority table. *)
-Theorem C12_native_types_order_invariant :
+(* 4. Attr.native_types followed by converter.sort_types.  Since /repo 4392a4a native_types is
+      list(dict.fromkeys(types)): a function of the declared type list alone (no set order):
+      the members, once each, in declared order ... *)
+Theorem C12_native_types_declared_order :
+  forall types,
+    GraphTables.native_types_is_order_preserving = true /\
+    NoDup (native_types types) /\ seteq (native_types types) types /\
+    (NoDup types -> native_types types = types) /\
+    native_types (native_types types) = native_types types.
+Proof. exact native_types_declared_order. Qed.
+Print Assumptions C12_native_types_declared_order.
+
+(* ... and what the generator uses is that list stably sorted by priority *)
+Theorem C12_sorted_native_types_spec :
+  forall types,
+    Permutation (sorted_native_types types) (native_types types) /\
+    StronglySorted (fun a b => prio_leb a b = true) (sorted_native_types types).
+Proof. exact sorted_native_types_spec. Qed.
+Print Assumptions C12_sorted_native_types_spec.
+
+(* sort_types itself (also used at run time on annotation order) does not depend on the order
+   of its argument when at most one type lies outside the priority table.  (Without the guard
+   it keeps the argument order for the {bytes, object} tie: Proofs.GraphMisc.sort_types_tie_refuted;
+   the generator no longer feeds it an address-dependent order.) *)
+Theorem C12_sort_types_order_invariant :
   forall ord ord', NoDup ord -> NoDup ord' -> seteq ord ord' -> native_guard ord = true ->
     sort_types ord = sort_types ord'.
-Proof. exact native_types_order_invariant. Qed.
-Print Assumptions C12_native_types_order_invariant.
-
-(* unguarded it is false: {bytes, object} keeps the set order, and that order does vary from
-   run to run when a heap-allocated type is in the same set (type hashes are addresses):
-   known finding native-types-tie-order; no effect on generated files has been found *)
-Theorem C12_native_types_order_refuted :
-  exists ord ord', NoDup ord /\ NoDup ord' /\ seteq ord ord' /\ sort_types ord <> sort_types ord'.
-Proof. exact native_types_order_refuted. Qed.
-Print Assumptions C12_native_types_order_refuted.
+Proof. exact sort_types_order_invariant. Qed.
+Print Assumptions C12_sort_types_order_invariant.
 
 (* 5. sequence numbers: independent of the id() values as long as ids are injective *)
 Theorem C12_sequence_renumbering_label_invariant :
@@ -173,6 +187,7 @@ Proof. vm_compute. repeat split; reflexivity. Qed.
 Example C12_guards_inhabited :
   native_guard [ty_str; ty_bytes; ty_int] = true /\ native_guard [ty_bytes; ty_object] = false /\
   sort_types [ty_str; ty_bytes; ty_int] = [ty_bytes; ty_int; ty_str] /\
+  sorted_native_types [ty_str; ty_object; ty_int; ty_object; ty_bytes; ty_str] = [ty_object; ty_bytes; ty_int; ty_str] /\
   filter (fun t => negb (in_table t)) GraphTables.datatype_python_types = [ty_bytes; ty_object] /\
   reset_sequence_numbers [Some 2%N] [Some 77%N; None; Some 5%N; Some 77%N; Some 0%N]
     = [Some 3%N; None; Some 4%N; Some 3%N; Some 0%N].
